@@ -73,20 +73,38 @@ def build() -> Path:
         fcntl.flock(lock, fcntl.LOCK_EX)
         if exe.exists():
             return exe
-        units = [(NATIVE / "kernels_fuzz.cpp", out_dir / "kernels_fuzz.o")]
+        # the harness translation unit (slowest to compile) only depends on the harness
+        # sources and on the repository *headers*: cache its object separately so that a
+        # change of a .cpp file does not recompile it
+        hh = hashlib.sha256()
+        for p in sorted((repo / "src").iterdir()):
+            if p.suffix in (".hpp", ".h"):
+                hh.update(p.name.encode())
+                hh.update(p.read_bytes())
+        for p in (NATIVE / "kernels_fuzz.cpp", NATIVE / "ref_kernels.hpp"):
+            hh.update(p.read_bytes())
+        hh.update(" ".join([CXX] + CFLAGS).encode())
+        hdir = BUILD / "harness-objects"
+        hdir.mkdir(parents=True, exist_ok=True)
+        hobj = hdir / f"kernels_fuzz-{hh.hexdigest()[:20]}.o"
+        units = [] if hobj.exists() else [(NATIVE / "kernels_fuzz.cpp", hobj)]
         units += [(repo / "src" / s, out_dir / (s + ".o")) for s in SRC]
         inc = [f"-I{repo / 'src'}", f"-I{NATIVE}"]
 
         def cc(unit):
             src, obj = unit
-            cmd = [CXX, *CFLAGS, *inc, "-c", str(src), "-o", str(obj)]
+            tmpo = obj.with_name(f".{obj.name}.{os.getpid()}")
+            cmd = [CXX, *CFLAGS, *inc, "-c", str(src), "-o", str(tmpo)]
             p = subprocess.run(cmd, capture_output=True, text=True)
             if p.returncode != 0:
                 raise FuzzBuildError(f"{' '.join(cmd)}\n{p.stderr[-3000:]}")
+            os.replace(tmpo, obj)
             return obj
 
         with ThreadPoolExecutor(len(units)) as ex:
             objs = list(ex.map(cc, units))
+        if hobj not in objs:
+            objs.append(hobj)
         tmp = out_dir / f".kernels_fuzz.{os.getpid()}"
         cmd = [CXX, *LDFLAGS, *[str(o) for o in objs], "-o", str(tmp)]
         p = subprocess.run(cmd, capture_output=True, text=True)
@@ -102,8 +120,8 @@ def _prune(keep: Path) -> None:
         dirs = sorted((d for d in BUILD.iterdir() if d.is_dir()), key=lambda d: d.stat().st_mtime)
     except FileNotFoundError:
         return
-    for d in dirs[:-3]:
-        if d != keep:
+    for d in dirs[:-4]:
+        if d != keep and d.name != "harness-objects":
             shutil.rmtree(d, ignore_errors=True)
 
 
